@@ -108,7 +108,7 @@ func pairs(c *props.Ctx) {
 	}
 	sc := chain()
 	cnt := 0
-	perSig := 0
+	perSigs := map[string]int{}
 	for pi, p := range pcts {
 		if !c.Mine(pi) {
 			continue
@@ -142,9 +142,15 @@ func pairs(c *props.Ctx) {
 			cnt++
 			c.R.Outcome(fmt.Sprintf("pair|%d|%d", len(f), floor))
 			if int64(len(f)) > floor {
-				perSig++
-				if perSig <= 3 {
-					c.R.Violate(report.Violation{Signature: "C20:filter-exceeds-floor:float-rounding",
+				// the known finding is exactly this: one node too many, where the float64 product rounds up to the
+				// next integer although the exact product lies just below it; anything else is a different excess
+				sig := "C20:filter-exceeds-floor:pairs"
+				if int64(len(f)) == floor+1 && int64(float64(total)*p) == floor+1 {
+					sig = "C20:filter-exceeds-floor:float-rounding"
+				}
+				perSigs[sig]++
+				if perSigs[sig] <= 3 {
+					c.R.Violate(report.Violation{Signature: sig,
 						What:     fmt.Sprintf("%d known nodes, MaxEjectionPercent %v (exactly %s): %d nodes filtered, floor of the exact product %s is %d", total, p, new(big.Rat).SetFloat64(p).FloatString(20), len(f), prod.FloatString(20), floor),
 						Scenario: "pairs", Replay: map[string]interface{}{"kind": "pair", "n": total, "p": p}})
 				}
